@@ -987,4 +987,675 @@ theorem build_no_crash {tbl : Schema} (hw : WFP tbl) :
       exact key subs (fun _ h => h) _ [] _ (Inv.init tbl t T) he'
     · exact finish_no_crash h
 
+
+/-! ### completeness: a statement tree without defect is built -/
+
+theorem found_spelled {tbl : Schema} (hw : WFP tbl) {t : Nat} {T : TypeDef} {st : Partial}
+    {subs : List Stmt} (hinv : Inv tbl t T st subs) (r : Nat) :
+    st.found.contains (some r) = true ↔ ∃ ss ∈ subs, tbl.kwName r = some ss.kw := by
+  rw [hinv.found, found_iff]
+  constructor
+  · rintro ⟨ss, hss, hk⟩; exact ⟨ss, hss, kwId_name hk⟩
+  · rintro ⟨ss, hss, hk⟩; exact ⟨ss, hss, kwId_of_name hw.names hk⟩
+
+/-- One loop iteration succeeds on an acceptable substatement. -/
+theorem addSub_progress {tbl : Schema} (hw : WFP tbl) {t : Nat} {T : TypeDef} (hT : WFT tbl T)
+    {ss : Stmt} {st : Partial} {pre : List Stmt} {child : Unit → Except Err ANode}
+    (hinv : Inv tbl t T st pre)
+    (hchild : knownIn tbl T ss.kw = true → ∃ c, child () = .ok c ∧ mirrors tbl (some t) c ss = true)
+    (hpre : knownIn tbl T ss.kw = false → prefixed ss.kw = true)
+    (hptr : ∀ f ∈ T.fields, f.kind = .ptr → tbl.kwName f.tag = some ss.kw → subsOf tbl f pre = []) :
+    ∃ st', addSub tbl T ss st child = .ok st' := by
+  unfold addSub
+  simp only
+  split
+  · rename_i i hfi
+    obtain ⟨f, hf, hfs, hfn⟩ := fn_some hT hfi
+    have hknown : knownIn tbl T ss.kw = true := known_of_field hf hfs hfn
+    have hlt : i < st.fields.length := by
+      rw [hinv.len]; exact (List.getElem?_eq_some_iff.1 hf).1
+    have hcur : st.fields[i]? = some st.fields[i] := List.getElem?_eq_getElem hlt
+    rw [hf, hcur]
+    simp only
+    have hnot : ¬ ((decide (f.kind = .ptr) && !(st.fields[i]).isEmpty) = true) := by
+      intro hc
+      simp only [Bool.and_eq_true, decide_eq_true_eq, Bool.not_eq_true', List.isEmpty_eq_false_iff] at hc
+      have hold := hinv.fields i f _ hf hcur
+      simp only [fieldOk, hfs, if_true, Bool.and_eq_true] at hold
+      have hl := mirrorsKids_length _ _ hold.1
+      rw [hptr f (List.mem_of_getElem? hf) hc.1 hfn] at hl
+      exact hc.2 (List.length_eq_zero_iff.1 hl)
+    rw [if_neg hnot]
+    obtain ⟨c, hc, hm⟩ := hchild hknown
+    rw [hc]
+    simp only
+    have hty := child_ty hw hT hfi hf hm
+    simp [hty]
+  · rename_i hfn
+    have hunk := fn_none hw hT hfn
+    have hp := hpre hunk
+    rw [isExtKw_eq, hp, hT.hasExt]
+    simp
+
+/-- The checks after the loop pass when every field's cardinality rule holds. -/
+theorem finish_progress {tbl : Schema} (hw : WFP tbl) {t : Nat} {T : TypeDef} (hT : WFT tbl T)
+    {kw : Bytes} {pos : Nat × Nat} {name : Bytes} {src : Option Stmt} {par : Option Nat}
+    {st : Partial} {subs : List Stmt} (hinv : Inv tbl t T st subs)
+    (hcard : T.fields.all (cardOk tbl kw subs) = true) :
+    ∃ a, finish tbl t T (tbl.kwId kw) pos name src par st = .ok a := by
+  rw [List.all_eq_true] at hcard
+  have card : ∀ f ∈ T.fields, f.kind.isSub = true →
+      (f.required = true → ∃ ss ∈ subs, tbl.kwName f.tag = some ss.kw) ∧
+      ((∃ k ∈ f.reqKinds, tbl.kwName k = some kw) → ∃ ss ∈ subs, tbl.kwName f.tag = some ss.kw) ∧
+      ((∃ k ∈ f.reqKinds, tbl.kwName k ≠ some kw) → ¬ ∃ ss ∈ subs, tbl.kwName f.tag = some ss.kw) := by
+    intro f hf hs
+    have := hcard f hf
+    simp only [cardOk, hs, Bool.not_true, Bool.false_or, Bool.and_eq_true, Bool.or_eq_true,
+      Bool.not_eq_true', decide_eq_true_eq, beq_iff_eq] at this
+    obtain ⟨⟨⟨_, h2⟩, h3⟩, h4⟩ := this
+    refine ⟨?_, ?_, ?_⟩
+    · intro hr
+      rw [← subsOf_pos_iff]
+      rcases h2 with h2 | h2
+      · rw [hr] at h2; cases h2
+      · exact h2
+    · intro hk
+      rw [← subsOf_pos_iff]
+      rcases h3 with h3 | h3
+      · rw [Bool.eq_false_iff] at h3
+        exact absurd (by simpa [List.any_eq_true] using hk) h3
+      · exact h3
+    · intro hk
+      rw [← subsOf_pos_iff]
+      rcases h4 with h4 | h4
+      · rw [Bool.eq_false_iff] at h4
+        exact absurd (by simpa [List.any_eq_true] using hk) h4
+      · omega
+  unfold finish
+  simp only
+  have c1 : ¬ ((T.required tbl).any (fun r => !st.found.contains (some r)) = true) := by
+    intro h
+    simp only [TypeDef.required, List.any_map, List.any_filter, List.any_eq_true, Bool.and_eq_true,
+      Function.comp, Bool.not_eq_true'] at h
+    obtain ⟨f, hf, hr, hnf⟩ := h
+    cases hs : f.kind.isSub with
+    | false => rw [(hT.metaPlain f hf hs).1] at hr; cases hr
+    | true =>
+      rw [(hT.sub f hf hs).2.1] at hnf
+      have := (found_spelled hw hinv f.tag).2 ((card f hf hs).1 hr)
+      rw [this] at hnf; cases hnf
+  have c2 : ¬ ((T.sRequired tbl (tbl.kwId kw)).any (fun r => !st.found.contains (some r)) = true) := by
+    intro h
+    simp only [TypeDef.sRequired, List.any_map, List.any_filter, List.any_eq_true, Bool.and_eq_true,
+      Function.comp, Bool.not_eq_true', beq_iff_eq] at h
+    obtain ⟨f, hf, ⟨k, hk, hkid⟩, hnf⟩ := h
+    cases hs : f.kind.isSub with
+    | false => rw [(hT.metaPlain f hf hs).2] at hk; cases hk
+    | true =>
+      rw [(hT.sub f hf hs).2.1] at hnf
+      have := (found_spelled hw hinv f.tag).2 ((card f hf hs).2.1 ⟨k, hk, kwId_name hkid.symm⟩)
+      rw [this] at hnf; cases hnf
+  have c3 : ¬ ((T.sRequiredOther tbl (tbl.kwId kw)).any (fun r => st.found.contains (some r)) = true) := by
+    intro h
+    simp only [TypeDef.sRequiredOther, List.any_map, List.any_filter, List.any_eq_true, Bool.and_eq_true,
+      Function.comp, bne_iff_ne, ne_eq] at h
+    obtain ⟨f, hf, ⟨k, hk, hkid⟩, hfd⟩ := h
+    cases hs : f.kind.isSub with
+    | false => rw [(hT.metaPlain f hf hs).2] at hk; cases hk
+    | true =>
+      rw [(hT.sub f hf hs).2.1] at hfd
+      have hne : tbl.kwName k ≠ some kw := by
+        intro hn
+        exact hkid (kwId_of_name hw.names hn).symm
+      exact (card f hf hs).2.2 ⟨k, hk, hne⟩ ((found_spelled hw hinv f.tag).1 hfd)
+  rw [if_neg c1, if_neg c2, if_neg c3]
+  exact ⟨_, rfl⟩
+
+theorem setParent_progress {tbl : Schema} {T : TypeDef} {p : Option Nat} (hp : ParentOk tbl p) :
+    ∃ par, setParent tbl T p = .ok par := by
+  cases h : setParent tbl T p with
+  | ok par => exact ⟨par, rfl⟩
+  | error e => exact (setParent_no_crash hp h).elim
+
+/-- Every statement tree without defect is built (for an absent or proper enclosing node). -/
+theorem build_complete {tbl : Schema} (hw : WFP tbl) :
+    ∀ (s : Stmt) (p : Option Nat), ParentOk tbl p → accepts tbl s = true →
+      ∃ a, build tbl s p = .ok a := by
+  intro s
+  induction s using Stmt.induct with
+  | h kw ha arg line col subs ih =>
+    intro p hp hacc
+    simp only [accepts] at hacc
+    split at hacc
+    · cases hacc
+    rename_i t htf
+    split at hacc
+    · cases hacc
+    rename_i T hTy
+    simp only [Bool.and_eq_true] at hacc
+    obtain ⟨hsubs, hcard⟩ := hacc
+    have hT : WFT tbl T := hw.types T (List.mem_of_getElem? hTy)
+    have ht : ((tbl.kwId kw).map tbl.alias).bind tbl.typeOf = some t := by
+      rw [← typeFor_eq hw]; exact htf
+    have hpc : ParentOk tbl (some t) := by
+      intro pt hpt; cases hpt; exact ⟨T, hTy, hT.isNode⟩
+    rw [build]
+    simp only [ht, hTy]
+    obtain ⟨par, hpar⟩ := setParent_progress (T := T) hp
+    rw [hpar]
+    simp only
+    -- the loop
+    have key : ∀ (rest : List Stmt) (pre : List Stmt) (st : Partial), pre ++ rest = subs →
+        Inv tbl t T st pre → acceptsSubs tbl T rest = true →
+        ∃ st', buildSubs tbl t T rest st = .ok st' ∧ Inv tbl t T st' subs := by
+      intro rest
+      induction rest with
+      | nil =>
+        intro pre st hsplit hinv _
+        simp only [List.append_nil] at hsplit
+        subst hsplit
+        exact ⟨st, by simp [buildSubs], hinv⟩
+      | cons ss rest ihr =>
+        intro pre st hsplit hinv hrest
+        have hss : ss ∈ subs := by rw [← hsplit]; simp
+        simp only [acceptsSubs, Bool.and_eq_true] at hrest
+        obtain ⟨hhead, htail⟩ := hrest
+        have hch : knownIn tbl T ss.kw = true →
+            ∃ c, build tbl ss (some t) = .ok c ∧ mirrors tbl (some t) c ss = true := by
+          intro hk
+          rw [if_pos hk] at hhead
+          obtain ⟨c, hc⟩ := ih ss hss (some t) hpc hhead
+          exact ⟨c, hc, (build_sound hw ss (some t) c hc).1⟩
+        have hpre : knownIn tbl T ss.kw = false → prefixed ss.kw = true := by
+          intro hk
+          rw [hk] at hhead
+          simpa using hhead
+        have hptr : ∀ f ∈ T.fields, f.kind = .ptr → tbl.kwName f.tag = some ss.kw →
+            subsOf tbl f pre = [] := by
+          intro f hf hp hn
+          rw [List.all_eq_true] at hcard
+          have hc := hcard f hf
+          have hs : f.kind.isSub = true := by rw [hp]; rfl
+          simp only [cardOk, hs, Bool.not_true, Bool.false_or, Bool.and_eq_true, Bool.or_eq_true,
+            decide_eq_true_eq] at hc
+          have hle : (subsOf tbl f subs).length ≤ 1 := by
+            rcases hc.1.1.1 with h | h
+            · simp [hp] at h
+            · exact h
+          rw [← hsplit, subsOf_append] at hle
+          have : ss ∈ subsOf tbl f (ss :: rest) := by
+            simp only [subsOf, List.mem_filter, beq_iff_eq]
+            exact ⟨List.mem_cons_self, hn⟩
+          have hpos := List.length_pos_of_mem this
+          rw [List.length_append] at hle
+          exact List.length_eq_zero_iff.1 (by omega)
+        obtain ⟨st1, h1⟩ := addSub_progress (child := fun _ => build tbl ss (some t)) hw hT hinv hch hpre hptr
+        have hinv1 := addSub_inv hw hT (fun c hc => build_sound hw ss (some t) c hc) hinv h1
+        obtain ⟨st', hst', hinv'⟩ := ihr (pre ++ [ss]) st1 (by rw [← hsplit]; simp) hinv1 htail
+        refine ⟨st', ?_, hinv'⟩
+        rw [buildSubs, h1]
+        exact hst'
+    obtain ⟨st, hst, hinv⟩ := key subs [] _ rfl (Inv.init tbl t T) hsubs
+    rw [hst]
+    simp only
+    exact finish_progress hw hT hinv hcard
+
+
+/-! ### top level: `Modules.Parse` / `Modules.add` -/
+
+/-- `wfTop` as propositions. -/
+structure WFTop (tbl : Schema) : Prop where
+  mapMod : ∀ kt ∈ tbl.nameMap, kt.2 = tbl.moduleTy → tbl.kwName kt.1 = some kwModule
+  aliasMod : ∀ ab ∈ tbl.aliases, tbl.kwName ab.2 = some kwModule → tbl.kwName ab.1 = some kwSubmodule
+  otherKinds : ∀ (t : Nat) (T : TypeDef), tbl.types[t]? = some T → t ≠ tbl.moduleTy →
+    ∀ k, (k = T.kind0 ∨ k ∈ T.kindIf.map (·.2)) →
+      tbl.kwName k ≠ some kwModule ∧ tbl.kwName k ≠ some kwSubmodule
+  modT : ∃ (T : TypeDef) (i k : Nat) (f : Field), tbl.types[tbl.moduleTy]? = some T ∧
+    tbl.kwName T.kind0 = some kwModule ∧ T.kindIf = [(i, k)] ∧ tbl.kwName k = some kwSubmodule ∧
+    T.fields[i]? = some f ∧ f.kind = .ptr ∧ (∀ r ∈ f.reqKinds, tbl.kwName r = some kwSubmodule) ∧
+    f.reqKinds ≠ []
+
+theorem wfTop_iff {tbl : Schema} (h : wfTop tbl = true) : WFTop tbl := by
+  simp only [wfTop, Bool.and_eq_true] at h
+  obtain ⟨⟨⟨⟨_, h1⟩, h2⟩, h3⟩, h4⟩ := h
+  rw [List.all_eq_true] at h1 h2 h3
+  refine ⟨?_, ?_, ?_, ?_⟩
+  · intro kt hkt he
+    have := h1 kt hkt
+    simp only [Bool.or_eq_true, bne_iff_ne, ne_eq, beq_iff_eq] at this
+    rcases this with h | h
+    · exact absurd he h
+    · exact h
+  · intro ab hab he
+    have := h2 ab hab
+    simp only [Bool.or_eq_true, bne_iff_ne, ne_eq, beq_iff_eq] at this
+    rcases this with h | h
+    · exact absurd he h
+    · exact h
+  · intro t T hT hne k hk
+    have hmem : (T, t) ∈ tbl.types.zipIdx := by
+      rw [List.mem_zipIdx_iff_getElem?]; simpa using hT
+    have := h3 (T, t) hmem
+    simp only [Bool.or_eq_true, beq_iff_eq, hne, false_or, List.all_eq_true, Bool.and_eq_true,
+      bne_iff_ne, ne_eq] at this
+    apply this k
+    rcases hk with hk | hk
+    · simp [hk]
+    · simp only [List.singleton_append, List.mem_cons]; right; exact hk
+  · split at h4
+    · cases h4
+    · rename_i T hT
+      simp only [Bool.and_eq_true, beq_iff_eq] at h4
+      obtain ⟨hk0, h4⟩ := h4
+      split at h4
+      · rename_i i k hki
+        simp only [Bool.and_eq_true, beq_iff_eq] at h4
+        obtain ⟨hk, h4⟩ := h4
+        split at h4
+        · rename_i f hf
+          simp only [Bool.and_eq_true, beq_iff_eq, List.all_eq_true, Bool.not_eq_true',
+            List.isEmpty_eq_false_iff] at h4
+          exact ⟨T, i, k, f, hT, hk0, hki, hk, hf, h4.1.1, h4.1.2, h4.2⟩
+        · cases h4
+      · cases h4
+
+theorem kwModule_ne_kwSubmodule : kwModule ≠ kwSubmodule := by decide
+
+/-- The type `Modules.add` accepts is produced for the keywords `module` and `submodule` only. -/
+theorem kw_of_moduleTy {tbl : Schema} (hw : WFP tbl) {kw : Bytes}
+    (h : typeFor tbl kw = some tbl.moduleTy) : kw = kwModule ∨ kw = kwSubmodule := by
+  have hto := wfTop_iff hw.top
+  rw [typeFor_eq hw] at h
+  cases hk : tbl.kwId kw with
+  | none => rw [hk] at h; cases h
+  | some k =>
+    rw [hk] at h
+    simp only [Option.map_some, Option.bind_some, Schema.typeOf, lookup_eq_find?, Option.map_eq_some_iff] at h
+    obtain ⟨kt, hfind, hkt⟩ := h
+    have hkey : kt.1 = tbl.alias k := by
+      have := List.find?_some hfind
+      simpa using this
+    have hname := hto.mapMod kt (List.mem_of_find?_eq_some hfind) hkt
+    rw [hkey] at hname
+    have hkw := kwId_name hk
+    simp only [Schema.alias, lookup_eq_find?] at hname
+    cases hf : tbl.aliases.find? (fun ab => ab.1 == k) with
+    | none =>
+      rw [hf] at hname
+      simp only [Option.map_none] at hname
+      rw [hkw] at hname
+      left; exact Option.some.inj hname
+    | some ab =>
+      rw [hf] at hname
+      simp only [Option.map_some] at hname
+      have hab := hto.aliasMod ab (List.mem_of_find?_eq_some hf) hname
+      have hk1 : ab.1 = k := by
+        have := List.find?_some hf
+        simpa using this
+      rw [hk1, hkw] at hab
+      right; exact Option.some.inj hab
+
+
+/-- `mirrors`, one level unfolded. -/
+theorem mirrors_iff {tbl : Schema} {p : Option Nat} {a : ANode} {s : Stmt} :
+    mirrors tbl p a s = true ↔
+      ∃ T, typeFor tbl s.kw = some a.ty ∧ tbl.types[a.ty]? = some T ∧
+        a.name = s.arg ∧ a.src = some s ∧ a.parent = p ∧
+        a.exts = extsOf tbl T s.subs ∧
+        s.subs.all (fun ss => knownIn tbl T ss.kw || prefixed ss.kw) = true ∧
+        a.fields.length = T.fields.length ∧
+        ∀ (i : Nat) (f : Field) (kids : List ANode), T.fields[i]? = some f → a.fields[i]? = some kids →
+          fieldOk tbl a.ty s.subs f kids = true := by
+  cases a with
+  | mk ty name src par fields exts =>
+    simp only [mirrors, ANode.ty, ANode.name, ANode.src, ANode.parent, ANode.exts, ANode.fields]
+    constructor
+    · intro h
+      split at h
+      · cases h
+      rename_i t ht
+      split at h
+      · cases h
+      rename_i T hT
+      simp only [Bool.and_eq_true, beq_iff_eq, decide_eq_true_eq] at h
+      obtain ⟨⟨⟨⟨⟨⟨h1, h2⟩, h3⟩, h4⟩, h5⟩, h6⟩, h7⟩ := h
+      subst h1
+      obtain ⟨hl, hp⟩ := mirrorsFields_pointwise _ _ h7
+      exact ⟨T, ht, hT, h2, h3, h4, h5, h6, hl, hp⟩
+    · rintro ⟨T, ht, hT, h2, h3, h4, h5, h6, hl, hp⟩
+      rw [ht]
+      simp only [hT, Bool.and_eq_true, beq_iff_eq, decide_eq_true_eq]
+      exact ⟨⟨⟨⟨⟨⟨trivial, h2⟩, h3⟩, h4⟩, h5⟩, h6⟩, mirrorsFields_of_pointwise _ _ hl hp⟩
+
+/-- `accepts`, one level unfolded. -/
+theorem accepts_iff {tbl : Schema} {s : Stmt} :
+    accepts tbl s = true ↔
+      ∃ t T, typeFor tbl s.kw = some t ∧ tbl.types[t]? = some T ∧
+        acceptsSubs tbl T s.subs = true ∧ T.fields.all (cardOk tbl s.kw s.subs) = true := by
+  cases s with
+  | mk kw ha arg line col subs =>
+    simp only [accepts, kw_mk, subs_mk]
+    constructor
+    · intro h
+      split at h
+      · cases h
+      rename_i t ht
+      split at h
+      · cases h
+      rename_i T hT
+      simp only [Bool.and_eq_true] at h
+      exact ⟨t, T, ht, hT, h.1, h.2⟩
+    · rintro ⟨t, T, ht, hT, h1, h2⟩
+      rw [ht]
+      simp only [hT, Bool.and_eq_true]
+      exact ⟨h1, h2⟩
+
+theorem acceptsSubs_iff {tbl : Schema} {T : TypeDef} : ∀ (subs : List Stmt),
+    acceptsSubs tbl T subs = true ↔
+      ∀ ss ∈ subs, (knownIn tbl T ss.kw = true → accepts tbl ss = true) ∧
+        (knownIn tbl T ss.kw = false → prefixed ss.kw = true) := by
+  intro subs
+  induction subs with
+  | nil => simp [acceptsSubs]
+  | cons x xs ih =>
+    simp only [acceptsSubs, Bool.and_eq_true, ih, List.mem_cons, forall_eq_or_imp]
+    constructor
+    · rintro ⟨h1, h2⟩
+      refine ⟨⟨?_, ?_⟩, h2⟩
+      · intro hk; rw [if_pos hk] at h1; exact h1
+      · intro hk; rw [hk] at h1; simpa using h1
+    · rintro ⟨⟨h1, h2⟩, h3⟩
+      refine ⟨?_, h3⟩
+      cases hk : knownIn tbl T x.kw with
+      | true => simpa using h1 hk
+      | false => simpa using h2 hk
+
+
+/-- `Module.Kind()` of a node built from a `submodule` statement is `submodule`, from a `module`
+statement `module` (the `required=submodule` field is present in the one, absent in the other). -/
+theorem nodeKind_module {tbl : Schema} (hw : WFP tbl) {a : ANode} {s : Stmt} {p : Option Nat}
+    (hty : a.ty = tbl.moduleTy) (hm : mirrors tbl p a s = true) (hacc : accepts tbl s = true)
+    {T : TypeDef} (hT : tbl.types[a.ty]? = some T) :
+    (s.kw = kwSubmodule → tbl.kwName (nodeKind T a) = some kwSubmodule) ∧
+    (s.kw = kwModule → tbl.kwName (nodeKind T a) = some kwModule) := by
+  obtain ⟨T', i, k, f, hT', hk0, hki, hk, hf, hptr, hreq, hne⟩ := (wfTop_iff hw.top).modT
+  rw [← hty, hT] at hT'
+  cases hT'
+  obtain ⟨T2, htf, hT2, _, _, _, _, _, hl, hp⟩ := mirrors_iff.1 hm
+  rw [hT] at hT2; cases hT2
+  have hlt : i < a.fields.length := by rw [hl]; exact (List.getElem?_eq_some_iff.1 hf).1
+  have hget : a.fields[i]? = some a.fields[i] := List.getElem?_eq_getElem hlt
+  have hkids := hp i f _ hf hget
+  have hs : f.kind.isSub = true := by rw [hptr]; rfl
+  simp only [fieldOk, hs, if_true, Bool.and_eq_true] at hkids
+  have hlen := mirrorsKids_length _ _ hkids.1
+  obtain ⟨t3, T3, ht3, hT3, _, hcard⟩ := accepts_iff.1 hacc
+  rw [htf] at ht3; cases ht3
+  rw [hT] at hT3; cases hT3
+  rw [List.all_eq_true] at hcard
+  have hc := hcard f (List.mem_of_getElem? hf)
+  simp only [cardOk, hs, Bool.not_true, Bool.false_or, Bool.and_eq_true, Bool.or_eq_true,
+    decide_eq_true_eq, Bool.not_eq_true', beq_iff_eq] at hc
+  obtain ⟨⟨_, h3⟩, h4⟩ := hc
+  obtain ⟨r, hr⟩ := List.exists_mem_of_ne_nil _ hne
+  have hrn := hreq r hr
+  have hgetD : a.fields.getD i [] = a.fields[i] := by
+    rw [List.getD_eq_getElem?_getD, hget]; rfl
+  have hkind : nodeKind T a = if (a.fields[i]).isEmpty then T.kind0 else k := by
+    simp only [nodeKind, hki, List.find?_cons, List.find?_nil, hgetD]
+    cases (a.fields[i]).isEmpty <;> rfl
+  constructor
+  · intro hkw
+    have hpos : 1 ≤ (subsOf tbl f s.subs).length := by
+      rcases h3 with h3 | h3
+      · rw [Bool.eq_false_iff] at h3
+        exfalso; apply h3
+        rw [List.any_eq_true]
+        exact ⟨r, hr, by rw [hkw, hrn]; simp⟩
+      · exact h3
+    have : (a.fields[i]).isEmpty = false := by
+      rw [List.isEmpty_eq_false_iff]
+      intro h0; rw [h0] at hlen; simp at hlen; omega
+    rw [hkind, this]
+    exact hk
+  · intro hkw
+    have hzero : (subsOf tbl f s.subs).length = 0 := by
+      rcases h4 with h4 | h4
+      · rw [Bool.eq_false_iff] at h4
+        exfalso; apply h4
+        rw [List.any_eq_true]
+        refine ⟨r, hr, ?_⟩
+        rw [hkw, hrn]
+        simp only [bne_iff_ne, ne_eq, Option.some.injEq]
+        exact fun e => kwModule_ne_kwSubmodule e.symm
+      · exact h4
+    have : (a.fields[i]).isEmpty = true := by
+      rw [List.isEmpty_iff]
+      exact List.length_eq_zero_iff.1 (by omega)
+    rw [hkind, this]
+    exact hk0
+
+/-- What the first loop of `Modules.Parse` established for (node, statement). -/
+def Built (tbl : Schema) (a : ANode) (s : Stmt) : Prop :=
+  mirrors tbl none a s = true ∧ accepts tbl s = true
+
+/-- `Built`, pairwise over two lists of equal length. -/
+inductive AllBuilt (tbl : Schema) : List ANode → List Stmt → Prop where
+  | nil : AllBuilt tbl [] []
+  | cons {a : ANode} {s : Stmt} {as : List ANode} {ss : List Stmt} :
+      Built tbl a s → AllBuilt tbl as ss → AllBuilt tbl (a :: as) (s :: ss)
+
+theorem buildAll_sound {tbl : Schema} (hw : WFP tbl) : ∀ (ss : List Stmt) (nodes : List ANode),
+    buildAll tbl ss = .ok nodes → AllBuilt tbl nodes ss := by
+  intro ss
+  induction ss with
+  | nil =>
+    intro nodes h
+    simp only [buildAll, Except.ok.injEq] at h
+    subst h
+    exact AllBuilt.nil
+  | cons s rest ih =>
+    intro nodes h
+    rw [buildAll] at h
+    split at h
+    · cases h
+    rename_i a ha
+    split at h
+    · cases h
+    split at h
+    · cases h
+    split at h
+    · cases h
+    rename_i as has
+    simp only [Except.ok.injEq] at h
+    subst h
+    obtain ⟨hm, hacc⟩ := build_sound hw s none a ha
+    exact AllBuilt.cons ⟨hm, hacc⟩ (ih as has)
+
+/-- One node added: its statement is a module or submodule, and the node lands in `SubModules`
+exactly for the keyword `submodule`. -/
+theorem addTop_sound {tbl : Schema} (hw : WFP tbl) {dup : List TopMod → TopMod → Bool}
+    {mods mods' : List TopMod} {a : ANode} {s : Stmt} (hb : Built tbl a s)
+    (h : addTop tbl dup mods a = .ok mods') :
+    ∃ m, mods' = mods ++ [m] ∧ m.node = a ∧
+      (s.kw = kwModule ∨ s.kw = kwSubmodule) ∧ m.isSub = (s.kw == kwSubmodule) := by
+  obtain ⟨hm, hacc⟩ := hb
+  unfold addTop at h
+  split at h
+  · cases h
+  rename_i T hT
+  simp only at h
+  split at h
+  · cases h
+  rename_i isSub hsub
+  split at h
+  · cases h
+  rename_i hty
+  have hty : a.ty = tbl.moduleTy := by simpa using hty
+  split at h
+  · cases h
+  simp only [Except.ok.injEq] at h
+  have hkw := kw_of_moduleTy hw (by rw [← hty]; exact mirrors_ty hm)
+  obtain ⟨hS, hM⟩ := nodeKind_module hw hty hm hacc hT
+  refine ⟨_, h.symm, rfl, hkw, ?_⟩
+  simp only
+  rcases hkw with hkw | hkw
+  · rw [hM hkw] at hsub
+    simp only [beq_self_eq_true, if_true, Option.some.injEq] at hsub
+    rw [← hsub, hkw]
+    exact (beq_eq_false_iff_ne.2 kwModule_ne_kwSubmodule).symm
+  · rw [hS hkw] at hsub
+    have hne : (some kwSubmodule == some kwModule) = false := by
+      rw [beq_eq_false_iff_ne]
+      intro e
+      exact kwModule_ne_kwSubmodule (Option.some.inj e).symm
+    simp only [hne, Bool.false_eq_true, if_false, beq_self_eq_true, if_true, Option.some.injEq] at hsub
+    rw [← hsub, hkw]
+    simp
+
+theorem addAll_sound {tbl : Schema} (hw : WFP tbl) {dup : List TopMod → TopMod → Bool} :
+    ∀ (nodes : List ANode) (ss : List Stmt), AllBuilt tbl nodes ss →
+      ∀ (mods mods' : List TopMod), addAll tbl dup nodes mods = .ok mods' →
+        ∃ added, mods' = mods ++ added ∧
+          mirrorsTop tbl (added.map fun m => (m.isSub, m.node)) ss = true ∧ acceptsTop tbl ss = true := by
+  intro nodes ss hall
+  induction hall with
+  | nil =>
+    intro mods mods' h
+    simp only [addAll, Except.ok.injEq] at h
+    exact ⟨[], by simp [h], by simp [mirrorsTop], by simp [acceptsTop]⟩
+  | cons hb _ ih =>
+    rename_i a s as rest
+    intro mods mods' h
+    rw [addAll] at h
+    split at h
+    · cases h
+    rename_i mods1 h1
+    obtain ⟨m, hm1, hnode, hkw, hsub⟩ := addTop_sound hw hb h1
+    obtain ⟨added, hadd, hmt, hat⟩ := ih mods1 mods' h
+    refine ⟨m :: added, by rw [hadd, hm1]; simp, ?_, ?_⟩
+    · simp only [List.map_cons, mirrorsTop, Bool.and_eq_true, beq_iff_eq]
+      rw [hnode]
+      exact ⟨⟨hb.1, hsub⟩, hmt⟩
+    · simp only [acceptsTop, List.all_cons, Bool.and_eq_true, Bool.or_eq_true, beq_iff_eq] at hat ⊢
+      exact ⟨⟨hkw, hb.2⟩, hat⟩
+
+/-- `Modules.Parse` succeeded: one node per top-level statement, in order, each mirroring its
+statement; every statement is an acceptable module or submodule. -/
+theorem parseTop_sound {tbl : Schema} (hw : WFP tbl) {dup : List TopMod → TopMod → Bool}
+    {ss : List Stmt} {mods : List TopMod} (h : parseTop tbl dup ss = .ok mods) :
+    mirrorsTop tbl (mods.map fun m => (m.isSub, m.node)) ss = true ∧ acceptsTop tbl ss = true := by
+  unfold parseTop at h
+  split at h
+  · cases h
+  rename_i nodes hn
+  obtain ⟨added, hadd, hm, ha⟩ := addAll_sound hw nodes ss (buildAll_sound hw ss nodes hn) [] mods h
+  simp only [List.nil_append] at hadd
+  subst hadd
+  exact ⟨hm, ha⟩
+
+theorem nodeKind_mem (T : TypeDef) (a : ANode) :
+    nodeKind T a = T.kind0 ∨ nodeKind T a ∈ T.kindIf.map (·.2) := by
+  unfold nodeKind
+  split
+  · rename_i i k hfind
+    right
+    exact List.mem_map.2 ⟨(i, k), List.mem_of_find?_eq_some hfind, rfl⟩
+  · left; rfl
+
+theorem parentOk_none (tbl : Schema) : ParentOk tbl none := by
+  intro pt h; cases h
+
+theorem buildAll_no_crash {tbl : Schema} (hw : WFP tbl) : ∀ (ss : List Stmt) (e : Err),
+    buildAll tbl ss = .error e → e.cls ≠ .crash := by
+  intro ss
+  induction ss with
+  | nil => intro e h; simp [buildAll] at h
+  | cons s rest ih =>
+    intro e h
+    rw [buildAll] at h
+    split at h
+    · rename_i e' he'
+      cases h
+      exact build_no_crash hw s none _ (parentOk_none tbl) he'
+    rename_i a ha
+    obtain ⟨hm, _⟩ := build_sound hw s none a ha
+    obtain ⟨T, _, hT, _⟩ := mirrors_iff.1 hm
+    rw [hT] at h
+    simp only at h
+    have hWT := hw.types T (List.mem_of_getElem? hT)
+    simp only [hWT.isNode, Bool.not_true, Bool.false_eq_true, if_false] at h
+    split at h
+    · rename_i e' he'
+      cases h
+      exact ih _ he'
+    · cases h
+
+theorem addTop_no_crash {tbl : Schema} (hw : WFP tbl) {dup : List TopMod → TopMod → Bool}
+    {mods : List TopMod} {a : ANode} {s : Stmt} (hb : Built tbl a s) {e : Err}
+    (h : addTop tbl dup mods a = .error e) : e.cls ≠ .crash := by
+  obtain ⟨T, _, hT, _⟩ := mirrors_iff.1 hb.1
+  unfold addTop at h
+  rw [hT] at h
+  simp only at h
+  split at h
+  · cases h; simp
+  rename_i isSub hsub
+  split at h
+  · rename_i hne
+    exfalso
+    have hne : a.ty ≠ tbl.moduleTy := by simpa using hne
+    have hk := (wfTop_iff hw.top).otherKinds a.ty T hT hne (nodeKind T a) (nodeKind_mem T a)
+    split at hsub
+    · rename_i h1
+      exact hk.1 (by simpa using h1)
+    · split at hsub
+      · rename_i h2
+        exact hk.2 (by simpa using h2)
+      · cases hsub
+  split at h
+  · cases h; simp
+  · cases h
+
+theorem addAll_no_crash {tbl : Schema} (hw : WFP tbl) {dup : List TopMod → TopMod → Bool} :
+    ∀ (nodes : List ANode) (ss : List Stmt), AllBuilt tbl nodes ss →
+      ∀ (mods : List TopMod) (e : Err), addAll tbl dup nodes mods = .error e → e.cls ≠ .crash := by
+  intro nodes ss hall
+  induction hall with
+  | nil => intro mods e h; simp [addAll] at h
+  | cons hb _ ih =>
+    intro mods e h
+    rw [addAll] at h
+    split at h
+    · rename_i e' he'
+      cases h
+      exact addTop_no_crash hw hb he'
+    · exact ih _ e h
+
+/-- `Modules.Parse` never takes a path on which the Go code panics. -/
+theorem parseTop_no_crash {tbl : Schema} (hw : WFP tbl) {dup : List TopMod → TopMod → Bool}
+    {ss : List Stmt} {e : Err} (h : parseTop tbl dup ss = .error e) : e.cls ≠ .crash := by
+  unfold parseTop at h
+  split at h
+  · rename_i e' he'
+    cases h
+    exact buildAll_no_crash hw ss _ he'
+  · rename_i nodes hn
+    exact addAll_no_crash hw nodes ss (buildAll_sound hw ss nodes hn) [] e h
+
+/-! ### helpers for the rejection theorems -/
+
+theorem fails_of_not_ok {ε α : Type} {x : Except ε α} (h : ∀ a, x ≠ .ok a) : ∃ e, x = .error e := by
+  cases x with
+  | ok a => exact absurd rfl (h a)
+  | error e => exact ⟨e, rfl⟩
+
+theorem card_of_ok {tbl : Schema} (hw : WFP tbl) {s : Stmt} {p : Option Nat} {a : ANode}
+    (hb : build tbl s p = .ok a) {t : Nat} {T : TypeDef} (ht : typeFor tbl s.kw = some t)
+    (hT : tbl.types[t]? = some T) {f : Field} (hf : f ∈ T.fields) : cardOk tbl s.kw s.subs f = true := by
+  obtain ⟨t', T', ht', hT', _, hc⟩ := accepts_iff.1 (build_sound hw s p a hb).2
+  rw [ht] at ht'; cases ht'
+  rw [hT] at hT'; cases hT'
+  exact List.all_eq_true.1 hc f hf
+
 end Goyang.Lemmas.Ast
